@@ -199,6 +199,7 @@ class AstRewriter(ast.NodeTransformer):
         if isinstance(node, ast.Expression):
             node = expr_rewriter.visit(node)
         else:
+            expr_rewriter.note_future_imports(node.body)
             for i in range(len(node.body)):
                 node.body[i] = expr_rewriter.visit(node.body[i])
             node = StatementInserter(
